@@ -175,7 +175,7 @@ def Mchain():
     rew = np.array([[[0.0], [0.5]], [[3.0], [3.0]], [[0.0], [0.0]]])
     fam["cycle3+loop"] = mdp(nxt, rew, 1.0)
     # chain with transient states feeding a 2-state stochastic recurrent class
-    nxt = np.array([[[1, 1], [2, 3]], [[2, 2], [2, 3]], [[3, 2], [3, 3]], [[2, 3], [2, 2]]], dtype=np.int32)
+    nxt = np.array([[[1, 1], [2, 3]], [[2, 2], [2, 3]], [[3, 2], [3, 3]], [[2, 3], [2, 3]]], dtype=np.int32)
     rew = np.array([[[5.0, 5.0], [0.0, 0.0]], [[1.0, 1.0], [0.0, 2.0]], [[0.0, 1.0], [1.0, 1.0]], [[2.0, 0.0], [0.5, 0.5]]])
     fam["transient"] = mdp(nxt, rew, 0.5)
     # near-periodic: 2-cycle with self-loop probability 1/8
@@ -235,3 +235,17 @@ def row_alphabet(A, E, R=(-2.0, 0.0, 1.0), W=(-3.0, 0.0, 1.0, 4.0)):
     V[:nW] = W
     V[nW:] = (np.arange(n) % 7) - 3.0
     return nxt, rew, prob, V
+
+
+def Mtie_avg(eps):
+    """Average-reward near-tie family (unichain, aperiodic under every policy): in state 0 action A
+    earns 1 and drifts (p=1/2) to the zero-reward state 1, action B stays and earns 1/2 + delta.
+    Gains: A = 1/2, B = 1/2 + delta; early iterates prefer A."""
+    out = []
+    for frac in (0.25, 0.5, 0.9, 2.0):
+        for sign in (-1, 1):
+            d = sign * frac * eps
+            nxt = np.array([[[1, 0], [0, 0]], [[0, 1], [0, 1]]], dtype=np.int32)
+            rew = np.array([[[1.0, 1.0], [0.5 + d, 0.5 + d]], [[0.0, 0.0], [0.0, 0.0]]])
+            out.append(mdp(nxt, rew, 0.5))
+    return out
